@@ -5,6 +5,7 @@
 -/
 import HSModel.Proofs.MetaRun
 import HSModel.Proofs.Exact
+import HSModel.Proofs.AbsLemmas
 namespace HS
 
 /-- documents-side frame of a run -/
@@ -247,14 +248,26 @@ theorem dmc_one (o : Oracle) (p f : Str) (w : World) (hnf : w.fault = none) (hdo
   | false =>
     simp [runsimp, hc]
     refine ⟨⟨rfl, rfl⟩, ?_⟩
-    intro a b
-    split
-    · rename_i e
-      obtain ⟨e1, e2⟩ := e
-      subst e1; subst e2
-      cases hx : st.mdocs.get (o.hId p, o.hId (p ++ f)) with
-      | none => rfl
-      | some v => rw [hx] at hc; cases hc
-    · rfl
+    cases hx : st.mdocs.get (o.hId p, o.hId (p ++ f)) with
+    | none => rfl
+    | some v => rw [hx] at hc; cases hc
+
+
+/-- `DocsPlain` on the two fields it reads (the form `simp` can discharge after projecting a record) -/
+def DocsPlainM (m : FMap (Str × Str) Tok) (dirs : List (Area × Str)) : Prop :=
+  ∀ d n t, m.get (d, n) = some t → Plain n ∧ (Area.mdata, d) ∈ dirs
+
+theorem dmc_all_get (o : Oracle) (p : Str) (w : World) (hnf : w.fault = none) (hdoc : w.lk.doc = [])
+    (hpl : DocsPlainM w.st.mdocs w.st.dirs) (d m : Str) :
+    (dmcWorld o p none w).st.mdocs.get (d, m) = if d = o.hId p then none else w.st.mdocs.get (d, m) :=
+  (dmc_all o p w hnf hdoc hpl).2 d m
+
+theorem dmc_all_dirs (o : Oracle) (p : Str) (w : World) (hnf : w.fault = none) (hdoc : w.lk.doc = [])
+    (hpl : DocsPlainM w.st.mdocs w.st.dirs) : (dmcWorld o p none w).st.dirs = w.st.dirs :=
+  (dmc_all o p w hnf hdoc hpl).1.dirs
+
+theorem dmc_all_tmp (o : Oracle) (p : Str) (w : World) (hnf : w.fault = none) (hdoc : w.lk.doc = [])
+    (hpl : DocsPlainM w.st.mdocs w.st.dirs) : (dmcWorld o p none w).st.tmpMeta = w.st.tmpMeta :=
+  (dmc_all o p w hnf hdoc hpl).1.tmp
 
 end HS
